@@ -82,6 +82,7 @@ func isValidIdentifier(id string) bool {
 			return false
 		}
 	}
-	// A Go keyword (func, type, range, ...) cannot name a receiver either.
-	return id != "" && !token.IsKeyword(id)
+	// A Go keyword (func, type, range, ...) cannot name a receiver either, and a predeclared
+	// identifier (nil, len, copy, error, ...) would hide what the generated body relies on.
+	return id != "" && !token.IsKeyword(id) && types.Universe.Lookup(id) == nil
 }
